@@ -5,6 +5,61 @@ NOTES = ("All checks are contract-based deductive verification with pyvc (DESIGN
          "contract, failed validation of an assumed external contract). Known findings: /verif/known_findings.json.")
 
 CLAIMS = {
+    "C01": {
+        "text": ("Proof of the engine's evaluation contracts on the real code: Simulation._calculate (a stored value wins over the "
+                 "formula; otherwise cycle check, formula, default when there is no result, cast, store, return, each once and in "
+                 "that order; a spiral yields the default), calculate (returns what _calculate returns), _run_formula (the formula "
+                 "in force is called with population, period and the system's parameter view), _check_for_cycle (circular "
+                 "definition refused), Variable.get_formula (latest start on or before the period, none past the end date), "
+                 "Variable.default_array, _cast_formula_result, Holder.get_array/_set over the storage view. Every combination "
+                 "of callee outcomes (return / raise) is explored."),
+        "note": ("This is a proof that the engine functions implement the meaning function for formulas assumed pure, not a run of "
+                 "rule systems: formula bodies, projections/aggregations (C10) and parameters (C06/C07) are outside. Callees enter "
+                 "through recording contracts whose own verification is listed in the evidence; formula start dates and stack "
+                 "shapes are enumerated concrete cases, periods are symbolic. Enum default arrays are not covered."),
+        "technique": "contract-based deductive verification (symbolic execution of the real source with recording call-site contracts + SMT)",
+        "design_ref": "DESIGN.md section 4 C01, section 3.6",
+    },
+    "C02": {
+        "text": ("Proof of the cache / taint mechanism the statement relies on: _check_for_cycle raises SpiralError exactly when the "
+                 "variable occurs max_spiral_loops times below the request (and is not a true cycle) after marking; "
+                 "invalidate_spiral_variables marks exactly the frames from the top down to the (max_spiral_loops+1)-th frame of the "
+                 "variable; the spiral handler of _calculate returns the default without storing it; purge_cache_of_invalid_values "
+                 "deletes every marked entry and empties the mark set only when the stack is empty; Holder.delete_arrays removes "
+                 "exactly the stored periods the period contains under every storage setting."),
+        "note": ("Partial by design: order independence without self-dependency is an argument over the _calculate contract, and the "
+                 "closing whole-history clause of the statement (every readable value equals what a fresh simulation would compute) "
+                 "is NOT decided by any contract here - both are listed under not_decided in the evidence. Stack shapes are "
+                 "enumerated up to 3 / 5 frames (periods symbolic)."),
+        "technique": "contract-based deductive verification (symbolic execution of the real source with recording call-site contracts + SMT)",
+        "design_ref": "DESIGN.md section 4 C02",
+    },
+    "C17": {
+        "text": ("Proof that storage settings and tracing do not change what is stored or returned: Holder._set makes the value the "
+                 "stored view of the period (memory entry if any, else file content) under every setting - memory only, disk "
+                 "backed with any occupation threshold, eternal or dated - and changes no other period; get_array reads that view; "
+                 "put_in_cache skips storing exactly for variables_to_drop and blacklist-with-opt-out while _calculate still "
+                 "returns the computed array; InMemoryStorage / OnDiskStorage get, put, delete against symbolic period-keyed maps; "
+                 "calculate leaves the stack as at entry on every exit and records each request once in the trace tree under the "
+                 "node current at entry with the value returned, with the real SimpleTracer / FullTracer executed inside."),
+        "note": ("File content goes through the assumed numpy.save/load round trip (validated natively per dtype on every run; object "
+                 "dtype, i.e. string variables, is known not to load without pickle and is outside the claim); file names through an "
+                 "injective token for str(period) (C05). psutil is an arbitrary real. FlatTrace rendering is not under contract."),
+        "technique": "contract-based deductive verification (symbolic execution of the real source with recording call-site contracts + SMT)",
+        "design_ref": "DESIGN.md section 4 C17",
+    },
+    "C18": {
+        "text": ("Proof of exceptional postconditions on the real code: on every raising path of _calculate (unknown variable, period "
+                 "inconsistency, circular definition, exception out of the formula, out of the cast, out of the store) nothing has "
+                 "been stored; calculate pops exactly the frame it pushed, restores the trace position, runs the purge and lets the "
+                 "error reach the caller, for SimpleTracer and FullTracer and 0..2 outer frames; Holder._set stores nothing when "
+                 "it refuses; purge and the cycle check as under C02."),
+        "note": ("Every combination of callee outcomes is explored (each recorded callee may return or raise). State mutated by a user "
+                 "formula before it raises is outside. That later requests behave as if the failed one never happened follows from "
+                 "the unchanged store and stack proved here plus the C01 contract; it is not a separate obligation."),
+        "technique": "contract-based deductive verification (symbolic execution of the real source with recording call-site contracts + SMT)",
+        "design_ref": "DESIGN.md section 4 C18",
+    },
     "C14": {
         "text": ("Proof by symbolic execution on a heap with concrete identities that TaxBenefitSystem.clone, Reform.__init__ (with an "
                  "apply() that edits variables and parameters), modify_parameters, load/add/update/replace/neutralize/annualize_variable, "
